@@ -187,3 +187,50 @@ def parse_tla(text):
             return items
 
     return value()
+
+
+def validate_batch(module, cfg, traces, *, shard=300, deque=True, env=None, workers=16, timeout=3600):
+    """Validates a list of traces (JSON-serialisable records with an `ev` list) against a *_Trace
+    specification that follows the batch protocol (tid, TLCSet registers, REJECTED / INV / MISMATCH lines).
+    Returns (verdicts, stats): verdict = {accepted, reached, inv: [names], mismatch: [clauses]}"""
+    import json
+    from concurrent.futures import ThreadPoolExecutor
+
+    wd = workdir("batch")
+    shards = []
+    for k in range(0, len(traces), shard):
+        f = wd / f"b{k}.json"
+        f.write_text(json.dumps(traces[k : k + shard]))
+        shards.append((k, f, len(traces[k : k + shard])))
+    verdicts = [None] * len(traces)
+    stats = {"generated": 0, "distinct": 0, "wall": 0.0, "errors": []}
+
+    def one(item):
+        k, f, n = item
+        e = dict(env or {})
+        e["TRACE_FILE"] = str(f)
+        return item, tlc(module, cfg, workers=1, env=e, deque=deque, timeout=timeout)
+
+    with ThreadPoolExecutor(max_workers=workers) as ex:
+        for (k, f, n), res in ex.map(one, shards):
+            stats["generated"] += res.generated
+            stats["distinct"] += res.distinct
+            stats["wall"] += res.wall
+            rejected = {x[1]: x for x in res.printed("REJECTED")}
+            invs, mism = {}, {}
+            for x in res.printed("INV"):
+                invs.setdefault(x[1], set()).update(x[3])
+            for x in res.printed("MISMATCH"):
+                mism.setdefault(x[1], []).append(x)
+            if (res.error or res.violation) and not rejected:
+                stats["errors"].append((res.error or str(res.violation)) + "\n" + res.out[-2500:])
+            for t in range(1, n + 1):
+                r = rejected.get(t)
+                verdicts[k + t - 1] = {
+                    "accepted": r is None and not (res.error and not rejected),
+                    "reached": r[2] if r else None,
+                    "inv": sorted(invs.get(t, ())),
+                    "mismatch": sorted({c for m in mism.get(t, []) if r and m[2] == r[2] + 1 for c in m[3]}),
+                }
+    shutil.rmtree(wd, ignore_errors=True)
+    return verdicts, stats
